@@ -152,9 +152,13 @@ def gen_ippat(rng, addrs):
 
 
 # ------------------------------------------------------------------ templates
-def gen_template(rng, labels, allow_fail=True, guard_label=None):
-    """returns (text, coq, items); items = python view for computing the expected expansion (see expand_py)"""
+def gen_template(rng, labels, allow_fail=True, guard_label=None, first_labels=()):
+    """returns (text, coq, items); items = python view for computing the expected expansion (see expand_py);
+    first_labels: labels the template reads first, separated by '|'"""
     items, txt, coq = [], [], []
+    for l in first_labels:
+        txt.append("{{.%s}}|" % l); coq.append("TLabel %s" % cbytes(B(l))); items.append(("label", l))
+        coq.append("TText %s" % cbytes(B("|"))); items.append(("text", "|"))
     for _ in range(rng.randint(1, 4)):
         k = rng.randrange(10 if allow_fail else 8)
         if k <= 1:
